@@ -626,7 +626,10 @@ class Segment:
             idx = [i for i, byte in enumerate(data) if byte >= 0xC0]
             if idx:
                 at = idx[int(op.get("frac", 0.5) * len(idx)) % len(idx)]
-                data[at + 1] = data[at + 1] & 0x7F if at + 1 < len(data) else 0x41
+                if at + 1 < len(data):
+                    data[at + 1] = data[at + 1] & 0x7F
+                else:
+                    data.append(0x41)     # (the lead byte was the last byte of a torn file)
             else:
                 # a pure ASCII file (JSON written with \u escapes): one letter gets its top bit
                 # set, which is a byte sequence no UTF-8 decoder accepts
